@@ -25,13 +25,17 @@ BUDGET_S = {"quick": 20, "thorough": 500}
 FLOORS = {
     "quick": {"evaluations": 2500, "distinct": 400,
               "counters": {"outputs_with_entities": 800, "via_macro": 100, "via_setblock": 50,
-                           "via_super_or_self": 100, "via_include": 100, "via_import_macro": 50}},
+                           "via_super_or_self": 100, "via_include": 100, "via_import_macro": 50,
+                           "fragment_through_filter": 30, "plain_tilde_fragment": 30}},
     "thorough": {"evaluations": 50000, "distinct": 6000,
                  "counters": {"outputs_with_entities": 16000, "via_macro": 2000, "via_setblock": 1000,
-                              "via_super_or_self": 2000, "via_include": 2000, "via_import_macro": 1000}},
+                              "via_super_or_self": 2000, "via_include": 2000, "via_import_macro": 1000,
+                              "fragment_through_filter": 600, "plain_tilde_fragment": 600}},
 }
 
-HOT = ["a<b", "x&y", '"q"', "'s'", "<b>&amp;</b>", "1<2>0", "&lt;"]
+# every value has a raw metacharacter (over-escaping shows) AND entity-like text
+# (under-escaping shows: unescape(raw value) != value)
+HOT = ["a<b&amp;", "x&y&lt;", '"q"&gt;', "'s'&#39;", "<b>&amp;</b>", "1<2>0&quot;", "&lt;<"]
 
 
 def heat(case, rng):
@@ -101,11 +105,15 @@ def feature_counters(ctx, case):
         ctx.count("via_import_macro")
     if "{% call" in allsrc:
         ctx.count("via_callblock")
+    if ")|lower" in allsrc or ")|string" in allsrc or ")|trim" in allsrc:
+        ctx.count("fragment_through_filter")
+    if " ~ m" in allsrc or " ~ caller(" in allsrc:
+        ctx.count("plain_tilde_fragment")
 
 
 def run(ctx):
     rng = ctx.rng("c16")
-    opts = stmtgen.Opts(filterblocks=False)
+    opts = stmtgen.Opts(filterblocks=False, fragfilters=True)
     n = 1500 if ctx.tier == "quick" else 40000
     i = 0
     while ctx.more(i, n, floor=80):
